@@ -67,11 +67,42 @@ func cmdHistory(args []string) {
 	fs.IntVar(&n, "n", 3000, "distinct inputs")
 	fs.IntVar(&hist, "histories", 2000, "")
 	fs.IntVar(&gor, "goroutines", 32, "")
+	var coldFirst bool
+	fs.BoolVar(&coldFirst, "cold-concurrent-first", false, "start with the concurrent phase in a cold process (first-use races), reference afterwards")
 	fs.StringVar(&out, "out", "", "")
 	fs.Parse(args)
 	rep := newReport("C05", "reference pass (every input once, sequentially, in a fresh process; also compared with the model's fresh-state answer), then random call histories (repeats, permutations, interleaved SQLi/XSS calls) and concurrent goroutines over shared inputs with scheduling pressure; every answer must equal the reference; non-trivial = the input is reported by at least one detector")
 	inputs := historyInputs(seed, n)
 	ref := make([]answer, len(inputs))
+	if coldFirst {
+		// cold start: many goroutines ask the same inputs at once before anything ran sequentially
+		cold := make([][]answer, gor)
+		var wg0 sync.WaitGroup
+		for g := 0; g < gor; g++ {
+			wg0.Add(1)
+			go func(g int) {
+				defer wg0.Done()
+				cold[g] = make([]answer, len(inputs))
+				for i := range inputs {
+					j := (i*7 + g*13) % len(inputs)
+					cold[g][j] = ask(inputs[j])
+					if i%5 == 0 {
+						runtime.Gosched()
+					}
+				}
+			}(g)
+		}
+		wg0.Wait()
+		for i, s := range inputs {
+			r0 := ask(s)
+			for g := 0; g < gor; g++ {
+				rep.Evals++
+				if cold[g][i] != r0 {
+					rep.fail("schedule-dependent-cold-start", s, fmt.Sprintf("goroutine %d: got %+v, sequential %+v", g, cold[g][i], r0))
+				}
+			}
+		}
+	}
 	if out != "" {
 		os.MkdirAll(out, 0o755)
 	}
